@@ -277,6 +277,11 @@ class FakePort(object):
 
     def stopListening(self):
         self.stop_calls += 1
+        if getattr(self.reactor, 'async_close', False):
+            # like a real tcp.Port: the socket is closed a reactor turn later; the Deferred fires then
+            d = defer.Deferred()
+            self.reactor.closing.append((self, d))
+            return d
         self.open = False
         return defer.succeed(None)
 
@@ -363,6 +368,8 @@ class FakeReactor(task.Clock):
         self.triggers = []
         self.next_port = 45000
         self.listen_fail = None      # exception to raise from listenTCP
+        self.async_close = False     # ports close a turn after stopListening() (finish_closes), as real ones do
+        self.closing = []
         self.running = True
 
     # IReactorTCP
@@ -436,6 +443,14 @@ class FakeReactor(task.Clock):
 
     def open_ports(self):
         return [p for p in self.ports if p.open]
+
+    def finish_closes(self):
+        """the reactor turn in which ports that were asked to stop (async_close mode) really close"""
+        pending, self.closing = getattr(self, 'closing', []), []
+        for port, d in pending:
+            port.open = False
+            d.callback(None)
+        return len(pending)
 
 
 # --------------------------------------------------------------------------
